@@ -750,11 +750,12 @@ class FInputs:
             fv = z3.fpBVToFP(eb, F64)
             rv = z3.Real(name + "_r")
             self.fpvars[name], self.revars[name] = fv, rv
-            gb = z3.fpToIEEEBV(x.fp)
+            gb = z3.BitVec(name + "_gridbits", 64)       # standard SMT-LIB (no fp.to_ieee_bv): to_fp(gb) = x
             d = _fresh("nb")
             # |ulp(x)| <= 2^-52 |x| for normal x; subnormal neighbourhood: absolute 2^-1074
             e = _fresh("ne")
-            assume_twin(fp=z3.And(z3.Or(eb == gb, eb == gb + 1, eb == gb - 1), z3.Not(z3.fpIsNaN(fv)), z3.Not(z3.fpIsInf(fv))),
+            assume_twin(fp=z3.And(z3.fpBVToFP(gb, F64) == x.fp, z3.Or(eb == gb, eb == gb + 1, eb == gb - 1),
+                                  z3.Not(z3.fpIsNaN(fv)), z3.Not(z3.fpIsInf(fv))),
                         re=z3.And(d >= -2 * _U, d <= 2 * _U, e >= -_ETA, e <= _ETA, rv == x.re * (1 + d) + e))
             return SF(fv, rv)
         if name in self.values:
@@ -807,6 +808,33 @@ def _check(solver, formulas, timeout_s):
     r = solver.check()
     dt = time.time() - t
     return ("sat" if r == z3.sat else "unsat" if r == z3.unsat else "unknown"), (solver.model() if r == z3.sat else None), dt
+
+
+def cvc5_verdict(formulas, timeout_s=60):
+    """second opinion on a (pinned, hence cheap) QF_BVFP query from the cvc5 wheel: 'sat' | 'unsat' | 'unknown' | 'unavailable'"""
+    try:
+        import cvc5
+    except Exception:  # noqa
+        return "unavailable"
+    try:
+        s = z3.SolverFor("QF_BVFP")
+        s.add(*formulas)
+        txt = "(set-logic QF_BVFP)\n" + s.to_smt2()
+        slv = cvc5.Solver()
+        slv.setOption("tlimit-per", str(int(timeout_s * 1000)))
+        parser = cvc5.InputParser(slv)
+        parser.setStringInput(cvc5.InputLanguage.SMT_LIB_2_6, txt, "fpx")
+        sm = parser.getSymbolManager()
+        out = ""
+        while True:
+            cmd = parser.nextCommand()
+            if cmd.isNull():
+                break
+            out += cmd.invoke(slv, sm)
+        out = out.strip().split()
+        return out[-1] if out and out[-1] in ("sat", "unsat", "unknown") else "unknown"
+    except Exception:  # noqa
+        return "unavailable"
 
 
 def _model_values(m, fi):
@@ -909,6 +937,10 @@ def execute_fp_case(prop, case, tier, seed):
                     continue
                 m2, q2 = found
                 values = _model_values(m2, fi)
+                cv = cvc5_verdict(list(pc_fp) + [z3.Not(h.fp)] + _pin(fi, values)[0])
+                q2["cvc5_at_model"] = cv
+                if cv == "unsat":
+                    res["errors"].append("z3 and cvc5 disagree on the bit-precise query pinned at the z3 model %s" % values)
                 bad = core.replay_values(case, values)
                 if bad:
                     lab = [b for b in bad if b[0] == ob.label] or bad
@@ -963,6 +995,7 @@ def _validate_point(case, paths, vseed, res):
         for o in obs:
             souts.update(o.outputs)
         eqs = []
+        fp_eqs = []
         for name, rv in routs.items():
             sv = souts.get(name)
             if sv is None:
@@ -972,14 +1005,20 @@ def _validate_point(case, paths, vseed, res):
                 if got != int(rv):
                     res["errors"].append("validation: FP encoding gives %s=%s, real code %s at %s" % (name, got, rv, values))
                 eqs.append(sv.re == int(rv))
+                fp_eqs.append(sv.bv == z3.BitVecVal(int(rv), 32))
             elif isinstance(sv, SF):
                 got = fpnum_to_float(m.eval(sv.fp, model_completion=True))
                 if got != float(rv):
                     res["errors"].append("validation: FP encoding gives %s=%r, real code %r at %s" % (name, got, rv, values))
                 eqs.append(sv.re == _rq(rv))
+                fp_eqs.append(sv.fp == z3.FPVal(float(rv), F64))
             elif isinstance(sv, (int, float)):
                 if sv != rv:
                     res["errors"].append("validation: concrete output %s differs: %r vs %r" % (name, sv, rv))
+        cv = cvc5_verdict(list(pc_fp) + pf + fp_eqs)
+        if cv == "unsat":
+            res["errors"].append("validation: cvc5 disagrees with z3/real code on the FP encoding at %s" % values)
+        res.setdefault("cvc5_checks", []).append(cv)
         r2, _, _ = _check(z3.Solver(), list(pc_re) + pr + eqs, 60)
         if r2 != "sat":
             res["errors"].append("validation: error model does not admit the real run (%s) at %s" % (r2, values))
@@ -1012,3 +1051,84 @@ class FCase:
 
     def run(self, inp):
         raise NotImplementedError
+
+
+# --------------------------------------------------------------------------
+# driver shared by the checks that mix fpx cases and E1 cases
+# --------------------------------------------------------------------------
+def run_cases(prop, mod, tier, seed, args, hard_timeout_s=900):
+    """Runs mod.cases(tier) (FCase -> execute_fp_case, Case -> core.execute_case), one forked process per
+    case, at most `jobs` at a time.  A case that exceeds `hard_timeout_s` wall seconds (z3 does not always
+    honour its own timeout inside nlsat) is killed and reported as inconclusive (exit 2), never as success."""
+    import multiprocessing as mp
+    import os
+    import sys
+    from . import core
+    t0 = time.time()
+    cs = mod.cases(tier)
+    only = args.only
+    idx = [i for i, c in enumerate(cs) if only is None or any(o in c.id for o in only)]
+    jobs = args.jobs or min(16, max(1, len(idx)))
+    verbose = os.environ.get("VF_VERBOSE")
+
+    def work(i, conn):
+        case = mod.cases(tier)[i]
+        try:
+            if getattr(case, "is_fp", False):
+                r = execute_fp_case(prop, case, tier, seed)
+            else:
+                r = core.execute_case(prop, case, tier, seed)
+        except BaseException as e:  # noqa
+            r = _blank(case, errors=["%s: %s" % (type(e).__name__, e)])
+        conn.send(r)
+        conn.close()
+
+    def _blank(case, **kw):
+        r = {"case": case.id, "bounds": case.bounds, "queries": [], "violations": [], "inconclusive": [], "errors": [],
+             "paths": 0, "functions": [], "twins": [], "validated": 0, "solver_s": 0.0, "stubs": list(case.stubs),
+             "assumptions": list(case.assumptions), "samples": [], "wall_s": 0.0}
+        r.update(kw)
+        return r
+
+    ctx = mp.get_context("fork")
+    pending = list(idx)
+    running = []
+    results = []
+    while pending or running:
+        while pending and len(running) < jobs:
+            i = pending.pop(0)
+            a, b = ctx.Pipe(duplex=False)
+            p = ctx.Process(target=work, args=(i, b))
+            p.start()
+            b.close()
+            if verbose:
+                print("[start] %s" % cs[i].id, file=sys.stderr, flush=True)
+            running.append((p, a, time.time(), i))
+        still = []
+        for p, a, ts, i in running:
+            if a.poll(0.05):
+                try:
+                    r = a.recv()
+                except EOFError:
+                    r = _blank(cs[i], errors=["worker died"])
+                p.join()
+                results.append(r)
+                if verbose:
+                    print("[done ] %s %.1fs solver=%.1fs q=%d viol=%d err=%d inc=%d" % (
+                        cs[i].id, r.get("wall_s", 0), r["solver_s"], len(r["queries"]), len(r["violations"]), len(r["errors"]),
+                        len(r["inconclusive"])), file=sys.stderr, flush=True)
+            elif not p.is_alive():
+                p.join()
+                results.append(_blank(cs[i], errors=["worker exited without a result (exit code %s)" % p.exitcode]))
+            elif time.time() - ts > hard_timeout_s:
+                p.kill()
+                p.join()
+                results.append(_blank(cs[i], wall_s=round(time.time() - ts, 1), inconclusive=[
+                    {"label": "*", "why": "hard wall-clock limit of %d s exceeded (solver did not honour its timeout)" % hard_timeout_s}]))
+                if verbose:
+                    print("[kill ] %s" % cs[i].id, file=sys.stderr, flush=True)
+            else:
+                still.append((p, a, ts, i))
+        running = still
+    results.sort(key=lambda r: r["case"])
+    return core.finish(prop, mod, tier, seed, results, time.time() - t0)
